@@ -563,6 +563,14 @@ def rule_s6(repo, col):
         if f is None:
             raise AnalysisError("SemiringSymbolic.%s missing" % name)
         params = f.params[1:]
+        for st in walk_no_nested(f.node):
+            if isinstance(st, ast.Name) and isinstance(st.ctx, ast.Store) and st.id in params:
+                stmt = st
+                par = m.parents()
+                while stmt is not None and not isinstance(stmt, ast.stmt):
+                    stmt = par.get(stmt)
+                col.fail("S6", m, stmt if stmt is not None else f.node, "SemiringSymbolic.%s re-binds its operand %r before embedding it: the text placed in the result is not the operand's "
+                         "expression any more, so the result does not denote %s of the operand values" % (name, st.id, name))
         for r in returns(f.node):
             if r.value is None or (isinstance(r.value, ast.Constant)):
                 continue
